@@ -13,6 +13,8 @@ is compared with the extracted model's value, domain and class.
 """
 import json
 import os
+import re
+import subprocess
 
 from vlib import common, zw, dwforest
 from vlib.dwgen import Attr, Die, Unit, Forest, write_object, C, consts
@@ -326,10 +328,48 @@ def run(ctx):
             evaluations += 1
             nops += dwloc.check_location(path, die.off, C(name), elements, lambda what, case: bad("loc", what, case), "%s of DIE %#x (DWARF %d)" % (name, die.off, version))
     total += nops
+    # file names: DW_AT_decl_file / DW_AT_call_file index the unit's line table, whose entries are
+    # numbered from 0 in DWARF 5; in every constant form; expected names from readelf's dump of the table
+    ft = os.path.join(d, "filetable5.o")
+    subprocess.run(["as", "-o", ft, os.path.join(common.VERIF, "vlib", "data", "filetable5.s")], check=True)
+    raw = subprocess.run(["readelf", "--debug-dump=rawline", ft], stdout=subprocess.PIPE, stderr=subprocess.DEVNULL).stdout.decode("latin1")
+    dirs, fnames, sect = {}, {}, None
+    for line in raw.split("\n"):
+        if "Directory Table" in line:
+            sect = "d"
+        elif "File Name Table" in line:
+            sect = "f"
+        elif "Line Number Statements" in line:
+            sect = None
+        m = re.match(r"\s*(\d+)\s+(?:(\d+)\s+)?\(indirect line string, offset: [0-9a-fx]+\): (.*)$", line)
+        if m and sect == "d":
+            dirs[int(m.group(1))] = m.group(3)
+        elif m and sect == "f":
+            fnames[int(m.group(1))] = (int(m.group(2)), m.group(3))
+    def fname(i):
+        dd, nm = fnames[i]
+        return nm if nm.startswith("/") else dirs[dd] + "/" + nm
+    want = {"d0": ("decl", 0), "d1": ("decl", 1), "d2": ("decl", 2), "w0": ("decl", 0), "w2": ("decl", 2), "c0": ("call", 0), "c1": ("call", 1)}
+    r = zw.run_cases([zw.enc("entry [name, [@AT_decl_file], [@AT_call_file], [attribute ?AT_decl_file value], [attribute ?AT_call_file value]]", dw=ft)])[0]
+    seen = {}
+    for s_ in (r.results if r.ok() else []):
+        v = s_[0]["v"]
+        nm = bytes.fromhex(v[0]["v"]).decode()
+        seen[nm] = [[(x["t"], bytes.fromhex(x["v"]).decode("latin1") if x["t"] == "s" else x.get("v")) for x in q["v"]] for q in v[1:5]]
+    for nm, (kind, idx) in want.items():
+        evaluations += 1
+        total += 1
+        exp = [("s", fname(idx))] if len(fnames) == 3 else None
+        got = seen.get(nm)
+        slot = 0 if kind == "decl" else 1
+        if got is None or exp is None or got[slot] != exp or got[slot + 2] != exp:
+            bad("file", "DW_AT_%s_file = %d on `%s` (DWARF 5, file table numbered from 0): `@AT_%s_file` / `attribute value` give %s; the line table's entry %d is %r"
+                % (kind, idx, nm, kind, None if got is None else (got[slot], got[slot + 2]), idx, fname(idx) if len(fnames) == 3 else "?"),
+                {"die": nm, "index": idx, "file": ft, "kind": kind})
     common.report_broken_obligations(ctx, oblig, bool(ctx.violations))
     ctx.cov.update({
         "evaluations": evaluations, "distinct_nontrivial": total,
-        "rule": "four generated units (DWARF 2, 3, 4, 5), one DIE per combination: DW_AT_const_value x 24 type contexts (10 base types incl. every interpreted and uninterpreted encoding and one without encoding, typedef/const/volatile/restrict chains, pointer, pointer to member, decltype(nullptr), structure, no type, 6 enumerations with/without underlying type and with sdata/udata/mixed/plain enumerators) x forms data1/2/4/8 at 8 boundary values each, sdata (11 values), udata (9), block1 of length 0,1,2,3,4,8, implicit_const (DWARF 5); enumerators of each enumeration; 13 enumerated attributes, line/column and 19 numeric attributes (signed, unsigned, section offsets, vendor range, uninterpreted) x 9 form/value pairs; strings with quote/backslash/control/high bytes in string and strp; flags; addresses; 6 reference forms; locations; every one of these values also read with `@AT_x` through a two-link abstract_origin -> specification chain (must equal the attribute read where it is stored)",
+        "rule": "four generated units (DWARF 2, 3, 4, 5), one DIE per combination: DW_AT_const_value x 24 type contexts (10 base types incl. every interpreted and uninterpreted encoding and one without encoding, typedef/const/volatile/restrict chains, pointer, pointer to member, decltype(nullptr), structure, no type, 6 enumerations with/without underlying type and with sdata/udata/mixed/plain enumerators) x forms data1/2/4/8 at 8 boundary values each, sdata (11 values), udata (9), block1 of length 0,1,2,3,4,8, implicit_const (DWARF 5); enumerators of each enumeration; 13 enumerated attributes, line/column and 19 numeric attributes (signed, unsigned, section offsets, vendor range, uninterpreted) x 9 form/value pairs; strings with quote/backslash/control/high bytes in string and strp; flags; addresses; 6 reference forms; locations; file names (decl_file / call_file 0, 1, 2 against a DWARF 5 line table, in data1, data2 and udata form); every one of these values also read with `@AT_x` through a two-link abstract_origin -> specification chain (must equal the attribute read where it is stored)",
         "samples": [], "model_classes": hist,
         "traces_validated_against_impl": evaluations, "violations_by_kind": viol,
     })
